@@ -425,6 +425,10 @@ def make_cases(tier, rnd):
             cases.append(dict(fn="add_equal", widths=[n], num=num, host=rnd.choice(hosts) if num % 5 == 0 else "fresh"))
         cases.append(dict(fn="add_equal", gen="generate_equal", widths=[n], num=(1 << n) - 2 if n > 1 else 1))
         cases.append(dict(fn="add_equal", gen="generate_equal", widths=[n], num=1 << n))
+    # wide words: constants at and around 2^n, 2^53 and 2^63 (where floats stop being exact)
+    for n in (31, 32, 49, 53, 54, 63, 64, 65, 96, 128) if thorough else (32, 49, 53, 64, 65, 128):
+        for num in sorted({0, 1, (1 << n) - 1, (1 << n) - 2, 1 << (n - 1), (1 << (n - 1)) - 1, 1 << n, (1 << n) + 1, (1 << 53) + 1, (1 << 63) - 1} | {rnd.getrandbits(n)}):
+            cases.append(dict(fn="add_equal", widths=[n], num=num, host="fresh"))
     L = 10 if thorough else 6
     for il in range(1, L + 1):
         for ol in [None] + list(range(1, L + 1)):
